@@ -39,8 +39,9 @@ ACTIONS = {"PIT": ("train", "eval", "export", "export_nobn", "summary", "cost", 
 class _Bg:
     """run_tlc in a thread; the bookkeeping of Run.design is replayed in the main thread (join)."""
 
-    def __init__(self, R: Run, module: str, cfg: str, *, expect_ok=True, require_cov=(), **kw):
+    def __init__(self, R: Run, module: str, cfg: str, *, expect_ok=True, require_cov=(), after: Optional["_Bg"] = None, **kw):
         self.R, self.module, self.cfg, self.expect_ok, self.require_cov, self.kw = R, module, cfg, expect_ok, require_cov, kw
+        self.after = after               # chains of runs: start when the predecessor has finished (bounds the number of JVMs)
         self.res: Optional[tlc.TLCResult] = None
         self.exc: Optional[BaseException] = None
         self.th = threading.Thread(target=self._go, daemon=True)
@@ -48,6 +49,8 @@ class _Bg:
 
     def _go(self):
         try:
+            if self.after is not None:
+                self.after.th.join()
             self.res = tlc.run_tlc(self.module, self.cfg, **self.kw)
         except BaseException as e:       # re-raised in join()
             self.exc = e
@@ -232,7 +235,7 @@ def random_scenario(rng: random.Random, maxhist: int = 3) -> Dict[str, Any]:
         if r < 0.12:
             cands = [i + 1 for i, m in enumerate(nodes) if m["op"] in ("conv", "lin") and not m.get("sn") and m.get("bn")
                      and not m.get("bnref") and (not m.get("reuse") or m.get("bnown")) and bn_class(m) == bn_class(nd)
-                     and widths_of[i + 1] == width]
+                     and widths_of.get(i + 1) == width]
             if cands:
                 nd["bn"], nd["bnref"] = False, rng.choice(cands)
         elif r < 0.22 and nd.get("bn"):
@@ -586,7 +589,7 @@ def run(tier: str, seed: int, replay=None) -> int:
               "_scen_bn2 (one BatchNorm object behind two layers, own BatchNorm at a reuse site, two BatchNorms in a row; chains and "
               "two-stream networks with a second input tensor); every TLC scenario gets a random subset of the rarely used public "
               "constructor keywords (coverage.public_keywords lists every keyword found in the signatures and the ones not exercised); "
-              + ("stratified samples of (1)-(3): 280 / 260 / 360" if quick else "stratified 8000 of (1), all of (2), stratified 5000 of (3) incl. "
+              + ("stratified samples of (1)-(3b): 180 / 180 / 260 / 240" if quick else "stratified 8000 of (1), all of (2), stratified 5000 of (3) incl. "
                  "every distinct history per method")
               + "; (4) seeded random architectures of the same grammar with up to ~12 nodes, widths 2..6, kernels 1..5, random "
               "configurations, Dropout, excluded layers followed by BatchNorm, random histories; (5) hand-written shapes of the "
@@ -631,18 +634,22 @@ def run(tier: str, seed: int, replay=None) -> int:
     bg = [
         # vacuity guard: every action of the state machine is taken (small instance, all invariants)
         _Bg(R, "ImportLifeMC", "ImportLifeMC_cov", workers=2, coverage=True,
-            require_cov=["ImportLifeMC!Grow", "ImportLifeMC!Conv", "ImportLifeMC!HSet", "ImportLifeMC!HExport", "ImportLifeMC!HObs"]),
+            require_cov=["ImportLifeMC!Grow", "ImportLifeMC!Conv", "ImportLifeMC!HSet", "ImportLifeMC!HExport", "ImportLifeMC!HExportNoBn",
+                         "ImportLifeMC!HObs"]),
     ]
     # sanity (non-vacuity of the invariants): the as-implemented model violates them on the finding topologies, and so do the
     # three defect variants of the model
-    bg += [_Bg(R, "ImportLifeMC", f"ImportLifeMC_{s}", workers=2, expect_ok=False) for s in SANITY]
+    for s in SANITY:                 # one chain
+        bg.append(_Bg(R, "ImportLifeMC", f"ImportLifeMC_{s}", workers=2, expect_ok=False, after=bg[-1]))
     # as-implemented model on the supported space; reference model on the whole grammar; configuration grammar
-    bg += [_Bg(R, "ImportLifeMC", f"ImportLifeMC_{c}_{sfx}", workers=WORKERS, timeout=7200) for c in ("ref", "cfg")]
-    bg += [_Bg(R, "ImportLifeMC", f"ImportLifeMC_{c}_quick", workers=WORKERS, timeout=7200) for c in ("bn", "refbn")]
-    bg.append(_Bg(R, "ImportLifeMC", f"ImportLifeMC_{sfx}", workers=WORKERS, timeout=7200))
-    bg.append(_Bg(R, "ImportLifeMC", "ImportLifeMC_refcfg_quick", workers=WORKERS, timeout=7200))
-    if not quick:
-        bg.append(_Bg(R, "ImportLifeMC", "ImportLifeMC_thorough_sn", workers=WORKERS, timeout=7200))
+    # three chains of design runs
+    chains = [[f"ImportLifeMC_ref_{sfx}", "ImportLifeMC_bn_quick"], [f"ImportLifeMC_{sfx}", "ImportLifeMC_refbn_quick"],
+              [f"ImportLifeMC_cfg_{sfx}", "ImportLifeMC_refcfg_quick"] + ([] if quick else ["ImportLifeMC_thorough_sn"])]
+    for ch in chains:
+        prev = None
+        for c in ch:
+            prev = _Bg(R, "ImportLifeMC", c, workers=WORKERS, timeout=7200, after=prev)
+            bg.append(prev)
     for name in dumps:
         res[name] = fg[name].join()
 
@@ -660,23 +667,23 @@ def run(tier: str, seed: int, replay=None) -> int:
         c = tlc.parse_value(r["cfg_txt"])
         hpool.setdefault((c["method"], c["mode"]), []).append(list(tlc.parse_value(r["hist_txt"])))
     scs: List[Dict[str, Any]] = []
-    for r in _stratified(raws["scen"], 280 if quick else 8000, rng):
+    for r in _stratified(raws["scen"], 180 if quick else 8000, rng):
         c = tlc.parse_value(r["cfg_txt"])
         scs.append(_materialize(r, rng, "tlc-structure", hist=rng.choice(hpool[(c["method"], c["mode"])])))
-    for r in _stratified(raws["scen_cfg"], 260 if quick else 0, rng):
+    for r in _stratified(raws["scen_cfg"], 180 if quick else 0, rng):
         scs.append(_materialize(r, rng, "tlc-configuration"))
     # BatchNorm sharing patterns (chains and two-stream networks), each with a TLC-enumerated history
-    for r in _stratified(raws["scen_bn"], 130 if quick else 0, rng) + _stratified(raws["scen_bn2"], 170 if quick else 4000, rng):
+    for r in _stratified(raws["scen_bn"], 100 if quick else 0, rng) + _stratified(raws["scen_bn2"], 140 if quick else 4000, rng):
         c = tlc.parse_value(r["cfg_txt"])
         scs.append(_materialize(r, rng, "tlc-batchnorm-sharing", hist=rng.choice(hpool[(c["method"], c["mode"])])))
     # every distinct history at least once per method; beyond that stratified by (architecture features, history)
     for r in hraws:
         r["hkey"] = (tlc.parse_value(r["cfg_txt"])["method"], r["hist_txt"])
-    scs += [_materialize(r, rng, "tlc-history") for r in _stratified(hraws, 360 if quick else 5000, rng, key="hkey")]
+    scs += [_materialize(r, rng, "tlc-history") for r in _stratified(hraws, 260 if quick else 5000, rng, key="hkey")]
     R.extra["tlc_scenarios_executed"] = len(scs)
     R.extra["distinct_histories_executed"] = len({(s["method"], tuple(s["hist"])) for s in scs})
     # ---------------------------------------------------------------- code -> spec: random scenarios beyond the bounds
-    rs = [random_scenario(rng, hl) for _ in range(260 if quick else 3000)]
+    rs = [random_scenario(rng, hl) for _ in range(180 if quick else 3000)]
     R.extra["random_scenarios"] = len(rs)
     _execute_and_validate(R, fixed_scenarios() + scs + rs, "fixed + tlc-enumerated + random")
 
